@@ -70,4 +70,28 @@ theorem C03_settings_reach_covers_codec :
      "serializer.ArrayRules.CheckBounds"].all (fun f => decide (f ∈ codec_reach)) = true := by
   decide
 
+/-- The bodies (source text without white space, error construction collapsed to `ERR[sentinel]`) of the small functions
+the settings part of the model transcribes: `TS.merge` of `Hive/Spec/Serix.lean` is `TypeSettings.merge` (the receiver wins
+field by field — `C03_merge_priority`), maps get the lexical-order rule through `ensureOrdering` (on a copy), `toMode` turns
+the lexical-ordering setting into the mode bit, `MinLen` / `MaxLen` treat 0 as unset, `CheckBounds` tests the minimum first
+(`boundsErr`), `HasMode` is a bit test, `Subset` is inclusion. -/
+theorem C03_facts_settings_bodies :
+    body_serix_TypeSettings_merge =
+      "{ifts.lengthPrefixType==nil{ts.lengthPrefixType=other.lengthPrefixType}ifts.objectType==nil{ts.objectType=other.objectType}ifts.lexicalOrdering==nil{ts.lexicalOrdering=other.lexicalOrdering}ifts.arrayRules==nil{ts.arrayRules=other.arrayRules}ifts.fieldKey==nil{ts.fieldKey=other.fieldKey}returnts}" ∧
+    body_serix_TypeSettings_ensureOrdering =
+      "{newTS:=ts.WithLexicalOrdering(true)arrayRules:=newTS.ArrayRules()newArrayRules:=new(ArrayRules)ifarrayRules!=nil{*newArrayRules=*arrayRules}newArrayRules.ValidationMode|=serializer.ArrayValidationModeLexicalOrderingreturnnewTS.WithArrayRules(newArrayRules)}" ∧
+    body_serix_TypeSettings_toMode =
+      "{mode:=opts.toMode()lexicalOrdering,set:=ts.LexicalOrdering()ifset&&lexicalOrdering{mode|=serializer.DeSeriModePerformLexicalOrdering}returnmode}" ∧
+    body_serix_TypeSettings_MinLen =
+      "{ifts.arrayRules==nil||ts.arrayRules.Min==0{return0,false}returnts.arrayRules.Min,true}" ∧
+    body_serix_TypeSettings_MaxLen =
+      "{ifts.arrayRules==nil||ts.arrayRules.Max==0{return0,false}returnts.arrayRules.Max,true}" ∧
+    body_serializer_ArrayRules_CheckBounds =
+      "{ifar.Min!=0&&count<ar.Min{returnERR[ErrArrayValidationMinElementsNotReached]}ifar.Max!=0&&count>ar.Max{returnERR[ErrArrayValidationMaxElementsExceeded]}returnnil}" ∧
+    body_serializer_ArrayValidationMode_HasMode =
+      "{returnav&mode>0}" ∧
+    body_serializer_TypePrefixes_Subset =
+      "{fortypePrefix:=rangetypePrefixes{if_,has:=other[typePrefix];!has{returnfalse}}returntrue}" :=
+  ⟨rfl, rfl, rfl, rfl, rfl, rfl, rfl, rfl⟩
+
 end Hive.Serix.Settings
